@@ -98,7 +98,7 @@ func (h *hcase) doCoord(t []string) (string, bool) {
 	}
 	h.co.fwd.calls, h.co.fwd.last = nil, nil
 	var cerr error
-	_, returned := call(func() error {
+	_, oc := h.guarded(func() error {
 		switch kind {
 		case "new":
 			cerr = h.co.coord.TaskCreated(context.Background(), mk(get("to")))
@@ -111,9 +111,8 @@ func (h *hcase) doCoord(t []string) (string, bool) {
 	})
 	base := fmt.Sprintf("coord %s %d %s %d from=%s to=%s ls=%s lc=%s every=%s cron=%s", kind, id, t[3], offms,
 		get("from"), get("to"), get("ls"), get("lc"), get("every"), get("cron"))
-	if !returned {
-		h.dead = true
-		return base + " => blocked", true
+	if oc != callReturned {
+		return base + " => " + h.stuck(), true
 	}
 	fwd := "none"
 	if len(h.co.fwd.calls) == 1 {
